@@ -388,6 +388,10 @@ class Machine:
                     h = cands[0]
         if h is not None and self.inline(c):
             return self.run(h, raw, generics=self.subst_generics((tt.get("fn") or {}).get("generics")))
+        if h is None and c and any(isinstance(x, Closure) for x in a):
+            # an external call we have no model for that is handed a closure: the closure would have run (with whatever it
+            # captured); pretending it did not could leave a wrong state behind
+            raise Stuck("no model for %s, which is handed a closure" % c)
         if h is None and c:
             # an external call we have no model for: if it is handed a `&mut` to abstract state it may change it behind our back
             # — refuse to continue (the row becomes UNDECIDED) rather than compute with stale state
